@@ -74,7 +74,7 @@ def mhcustom(logpfcn, x0, pparams, nsamples=10000, nburnout=5000, custom_step=No
         raise RuntimeError("custom_step option for mhcustom must be callable")
 
     x, dtype, device = _mhcustom_sample(logpfcn, x0, pparams, nburnout, custom_step, False)
-    xsamples = _mhcustom_sample(logpfcn, x0, pparams, nburnout, custom_step, True)
+    xsamples = _mhcustom_sample(logpfcn, x, pparams, nsamples, custom_step, True)
     wsamples = torch.zeros((xsamples.shape[0],), dtype=dtype, device=device) + (1. / xsamples.shape[0])
     return xsamples, wsamples
 
@@ -85,9 +85,11 @@ def _mhcustom_sample(logpfcn, x0, pparams, nsamples, custom_step, collect_sample
     device = logpx.device
     if collect_samples:
         samples = torch.empty((nsamples, *x0.shape), dtype=x.dtype, device=x.device)
-        samples[0] = x
 
-    for i in range(1, nsamples):
+    # like in _mh_sample, every one of the nsamples iterations takes one step
+    # (so the burn-out phase performs exactly nburnout steps and the collected
+    # samples are the nsamples states that follow it)
+    for i in range(nsamples):
         x = custom_step(x, *pparams)
         if collect_samples:
             samples[i] = x
